@@ -448,9 +448,13 @@ class Gen:
 		"""a Sum or Term chain whose CPython result type is `want` and that the stub table accepts"""
 		rng = self.rng
 		for _ in range(20):
-			n = rng.randint(2, 3)
+			n = rng.choice([2, 2, 3, 3, 4])
 			level = rng.choice([P_SUM, P_TERM])
-			ops = [rng.choice(['+', '-'] if level == P_SUM else ['*', '/', '%', '*']) for _ in range(n - 1)]
+			pool = ['+', '-'] if level == P_SUM else ['*', '/', '%', '*']
+			ops = [rng.choice(pool) for _ in range(n - 1)]
+			if n > 2 and len(set(ops)) == 1 and rng.random() < 0.8:
+				# mixed operators of one precedence level in one flat chain (each step has its own operator)
+				ops[rng.randrange(len(ops))] = rng.choice([o for o in pool if o != ops[0]])
 			operands = [self.num_operand(FLOAT if want == FLOAT else INT, depth) for _ in range(n)]
 			tys = [u for _, u in operands]
 			res = py_chain_type(tys, ops)
@@ -469,6 +473,9 @@ class Gen:
 		l = self.expr(INT, depth)
 		if op in ('<<', '>>'):
 			r = self.small_int() if self.small or rng.random() < 0.5 else self.expr(INT, min(depth, 1))
+			if rng.random() < 0.3:
+				op2 = '>>' if op == '<<' else '<<'
+				return Src(f'{l.at(level + 1)} {op} {r.at(level + 1)} {op2} {self.small_int().text}', level)
 		else:
 			r = self.expr(rng.choice([INT, INT, BOOL]), depth)
 		return Src(f'{l.at(level + 1)} {op} {r.at(level + 1)}', level)
